@@ -1,0 +1,8 @@
+//go:build verif && linux
+
+package libseccomp
+
+// Verification hooks (build tag verif).
+
+// VerifActTrace is the kernel action word used for the trace group.
+func VerifActTrace() uint32 { return uint32(actTrace) }
